@@ -241,23 +241,28 @@ def name_match(pat, name):
 
 
 def strip_generics(path):
-    """jxl_render::state::FrameRenderHandle::<S>::run -> jxl_render::state::FrameRenderHandle::run"""
+    """jxl_render::state::FrameRenderHandle::<S>::run -> jxl_render::state::FrameRenderHandle::run
+    (only turbofish-style `::<...>` segments are removed; `<T as Trait>::f` heads are kept)"""
     out = []
-    depth = 0
     i = 0
-    while i < len(path):
-        ch = path[i]
-        if ch == "<":
-            depth += 1
-        elif ch == ">":
-            depth -= 1
-        elif depth == 0:
-            out.append(ch)
+    n = len(path)
+    while i < n:
+        if path.startswith("::<", i):
+            depth = 0
+            j = i + 2
+            while j < n:
+                if path[j] == "<":
+                    depth += 1
+                elif path[j] == ">":
+                    depth -= 1
+                    if depth == 0:
+                        break
+                j += 1
+            i = j + 1
+            continue
+        out.append(path[i])
         i += 1
-    s = "".join(out)
-    while "::::" in s:
-        s = s.replace("::::", "::")
-    return s
+    return "".join(out)
 
 
 def const_explore(fn, start_bb, env, on_block, assume_discr=None, limit=20000):
